@@ -12,7 +12,7 @@ from urllib import parse
 from hypothesis import strategies as st
 
 from vf import lab, plugsynth
-from vf.core import Prop, Outcome
+from vf.core import Prop, Outcome, fd
 
 from deep.api.attributes import BoundedAttributes
 from deep.api.resource import Resource
@@ -141,34 +141,36 @@ class C18(Prop):
                        st.tuples(st.just('set'), st.sampled_from(KEYS), VSPEC),
                        st.tuples(st.just('set'), st.sampled_from(KEYS[:5]), VSPEC),
                        st.tuples(st.just('del'), st.sampled_from(KEYS[:6])),
-                       st.tuples(st.just('merge'), st.lists(st.tuples(st.sampled_from(KEYS[:6]), VSPEC), max_size=3)),
+                       st.tuples(st.just('merge'), st.lists(st.tuples(st.sampled_from(KEYS[:6]), VSPEC), max_size=3),
+                                 st.sampled_from([0, 1, 2])),
                        st.tuples(st.just('copy')), st.tuples(st.just('iter')))
-        attrs = st.fixed_dictionaries({
+        attrs = fd({
             'mode': st.just('attrs'),
             'cap': st.sampled_from([None, 0, 1, 2, 1, 2, 3, 4, 6]), 'limit': st.sampled_from([None, 0, 1, 3, 8]),
             'initial': st.lists(st.tuples(st.sampled_from(KEYS[:5]), VSPEC), max_size=4),
             'immutable': st.sampled_from([False, False, False, True]),
             'ops': st.lists(op, min_size=1, max_size=20),
         })
-        res = st.fixed_dictionaries({'attrs': st.lists(st.tuples(st.sampled_from(['a', 'b', 'c', 'service.name']),
+        res = fd({'attrs': st.lists(st.tuples(st.sampled_from(['a', 'b', 'c', 'service.name']),
                                                                  st.sampled_from(['1', '2', '3', '', 'x'])), max_size=3),
                                      'schema': st.sampled_from(['', '', 'a', 'b'])})
-        merge = st.fixed_dictionaries({'mode': st.just('merge'), 'chain': st.lists(res, min_size=2, max_size=5)})
+        merge = fd({'mode': st.just('merge'), 'chain': st.lists(res, min_size=2, max_size=5)})
         envitem = st.one_of(st.tuples(st.sampled_from(['a', 'b', 'service.name', ' padded ', 'telemetry.sdk.name']),
                                       st.sampled_from(['1', 'v%20x', ' sp ', '', 'a=b', 'z'])).map(lambda t: '%s=%s' % t),
                             st.sampled_from(['novalue', '', '=', ' ']))
-        create = st.fixed_dictionaries({
+        create = fd({
             'mode': st.just('create'),
             'env_attrs': st.one_of(st.none(), st.lists(envitem, max_size=4).map(','.join)),
             'env_service': st.sampled_from([None, None, 'svc-env', '']),
-            'code': st.lists(st.tuples(st.sampled_from(['a', 'b', 'service.name', 'telemetry.sdk.name']),
-                                       st.sampled_from(['code1', '', 'code2'])), max_size=3),
+            'code': st.lists(st.tuples(st.sampled_from(['a', 'b', 'service.name', 'telemetry.sdk.name',
+                                                        'telemetry.sdk.version', 'telemetry.sdk.language']),
+                                       st.sampled_from(['code1', '', 'code2', None, ['mixed', 1], 'code3'])), max_size=3),
             'schema': st.sampled_from([None, '', 'http://s']),
         })
-        provider = st.fixed_dictionaries({'order': st.sampled_from([0, 1, 2, -1]), 'kind': st.sampled_from(
+        provider = fd({'order': st.sampled_from([0, 1, 2, -1]), 'kind': st.sampled_from(
             ['ok', 'ok', 'none', 'raises']), 'keys': st.lists(st.sampled_from(['a', 'b', 'service.name', 'p']),
                                                                min_size=1, max_size=2, unique=True)})
-        start = st.fixed_dictionaries({'mode': st.just('start'), 'providers': st.lists(provider, min_size=1, max_size=3),
+        start = fd({'mode': st.just('start'), 'providers': st.lists(provider, min_size=1, max_size=3),
                                        'env_attrs': st.sampled_from([None, 'a=env,b=env']),
                                        'python_plugin': st.booleans()})
         return st.one_of(attrs, attrs, attrs, merge, create, start)
@@ -305,7 +307,12 @@ class C18(Prop):
                     other = {}
                     for k, spec in op[1]:
                         other[k] = build_value(spec)
-                    real.merge_in(other)
+                    src = other
+                    if len(op) > 2 and op[2]:
+                        # the source is itself an attribute container (as snapshot decorators return): same limit or not
+                        src = BoundedAttributes(attributes=other, max_value_len=limit if op[2] == 1 else None)
+                        other = dict(src._dict)
+                    real.merge_in(src)
                     if frozen and other:
                         out.violate('frozen container accepted a merge')
                         return out
@@ -415,7 +422,11 @@ class C18(Prop):
         a = dict(res.attributes)
         exp = {'telemetry.sdk.language': 'python', 'telemetry.sdk.name': 'deep'}
         exp.update(env)
-        exp.update(code)
+        # an invalid value given in code (None, mixed sequence) is rejected: it must not displace what was there
+        invalid = {k for k, v in code.items() if v is None or isinstance(v, list)}
+        if invalid:
+            out.cls('create_invalid_code_value')
+        exp.update({k: v for k, v in code.items() if k not in invalid})
         for k in SDK_KEYS:
             if k not in a:
                 out.violate('SDK identity key missing', {'key': k})
@@ -427,7 +438,7 @@ class C18(Prop):
             if k == 'service.name' and not v:
                 continue            # empty -> the fallback name applies
             if a.get(k) != v:
-                src = 'code' if k in code else 'environment' if k in env else 'built-in'
+                src = 'code' if (k in code and k not in invalid) else 'environment' if k in env else 'built-in'
                 out.violate('precedence built-in < environment < code violated (%s value lost)' % src,
                             {'key': k, 'expected': v, 'got': a.get(k)})
                 return out
